@@ -479,3 +479,12 @@ Proof.
         -- rewrite <- H0. f_equal. f_equal. lia.
         -- apply IHV. reflexivity.
 Qed.
+
+Lemma reported_alias p reported a :
+  (forall p', set_station_alias p a = Ok p' -> set_alias_address p reported a = (Ok p', a)) /\
+  ((forall p', set_station_alias p a <> Ok p') -> snd (set_alias_address p reported a) = reported).
+Proof.
+  unfold set_alias_address. split.
+  - intros p' H. rewrite H. reflexivity.
+  - intros H. destruct (set_station_alias p a) as [p'| | |]; try reflexivity. exfalso. exact (H p' eq_refl).
+Qed.
